@@ -711,6 +711,87 @@ def t3_escape(prog, rep):
     rep.check(okq, "T3-escape", "the closing quote is tested on the unescaped read", f.loc, "", function=f.name, construct="escape-quote")
 
 
+JSON_WS = {0x09, 0x0A, 0x0D, 0x20}
+JSON_ESC = {ord('"'): 34, ord("\\"): 92, ord("/"): 47, ord("b"): 8, ord("f"): 12, ord("n"): 10, ord("r"): 13, ord("t"): 9}
+
+
+def t3_tables(prog, rep):
+    """The two tables of the JSON grammar the finder relies on.  Whitespace: with the byte under the cursor set to each value
+    0..255 in turn, the skipping loop advances exactly for HT, LF, CR and SP (decided per value, so the spelling of the test does
+    not matter).  Escapes: in the comparison of a member name with the key, the switch on the character after a backslash gives
+    exactly the eight simple escapes their characters."""
+    from ..dataflow import decide_with, edge_kinds
+    u = prog.unit("util/json.c")
+    f = u.func("skip_ws")
+    if f is None:
+        raise cdb.AnalysisBroken("anchor missing: skip_ws")
+    P = ("v", f.params[0]["name"], f.params[0]["id"])
+    terms = (("[]", P, ("c", 0)), ("*", P))
+    tests = [b for b in f.blocks.values() if b.cond is not None and len(b.succs) == 2 and any(decide_with(b.cond, t, 0) is not None for t in terms)]
+    order = {bid: i for i, bid in enumerate(f.rpo())}
+    tests.sort(key=lambda b: order.get(b.id, 1 << 30))
+    if not tests:
+        rep.bad("T3-tables", "skip_ws tests the byte under the cursor", f.loc, "no comparison of buf[0] with a constant found", function=f.name, construct="ws-set")
+    else:
+        skipped = set()
+        for k in range(256):
+            cur, hops, out = tests[0].id, 0, None
+            while out is None and hops < 64:
+                hops += 1
+                blk = f.blocks[cur]
+                if any(ir.step(e) and ir.step(e)[1] == P for e in blk.elems):
+                    out = "skip"
+                    break
+                if any(e.cls == "ReturnStmt" for e in blk.elems) or not blk.succs:
+                    out = "stop"
+                    break
+                if blk.cond is not None and len(blk.succs) == 2:
+                    d = None
+                    for t in terms:
+                        if d is None:
+                            d = decide_with(blk.cond, t, k)
+                    if d is None:
+                        out = "stop"       # a condition about something else (the end of the buffer): leaves the table walk
+                        break
+                    cur = blk.succs[0] if d else blk.succs[1]
+                else:
+                    cur = blk.succs[0]
+                if cur is None:
+                    out = "stop"
+            if out == "skip":
+                skipped.add(k)
+        rep.check(skipped == JSON_WS, "T3-tables", "skip_ws skips exactly HT, LF, CR and SP", tests[0].cond.where,
+                  "bytes skipped: %s; JSON whitespace: %s" % (sorted(hex(x) for x in skipped), sorted(hex(x) for x in JSON_WS)), function=f.name, construct="ws-set")
+    g = u.func("match_str")
+    if g is None:
+        raise cdb.AnalysisBroken("anchor missing: match_str")
+    sw = [b for b in g.blocks.values() if b.term_cls == "SwitchStmt" and any(ord("n") in g.blocks[x].case_values() for x in b.succs if x is not None)]
+    if len(sw) != 1:
+        rep.defer_broken("T3-tables: the escape switch of match_str was not found")
+        return
+    got = {}
+    for x in sw[0].succs:
+        if x is None:
+            continue
+        for cv in g.blocks[x].case_values():
+            cur, hops = g.blocks[x], 0
+            while cur is not None and hops < 6:
+                hops += 1
+                asg = [e for e in cur.elems if e.is_assign and e.op == "=" and norm(e.kid(0))[0] == "v" and norm(e.kid(1))[0] == "c"]
+                if asg:
+                    got[cv] = norm(asg[0].kid(1))[1]
+                    break
+                if any(e.is_assign or e.cls in ("ReturnStmt", "CallExpr") for e in cur.elems):
+                    break
+                nxt = [y for y in cur.succs if y is not None]
+                cur = g.blocks[nxt[0]] if len(nxt) == 1 else None
+    simple = {k: v for k, v in got.items() if k in JSON_ESC}
+    extra = sorted(chr(k) for k in got if k not in JSON_ESC)
+    rep.check(simple == JSON_ESC and not extra, "T3-tables", "match_str decodes the eight simple escapes to their characters", sw[0].cond.where if sw[0].cond is not None else g.loc,
+              "decoded: %s; JSON: %s%s" % ({chr(k): v for k, v in sorted(simple.items())}, {chr(k): v for k, v in sorted(JSON_ESC.items())},
+                                           ("; also given a character: %s" % extra) if extra else ""), function=g.name, construct="escape-table")
+
+
 def t3_unicode(prog, rep):
     """Names written with \\u escapes never match: in match_str, every way through the 'u' arm of the escape switch either
     answers `end` or stores 0 into *foundit before it rejoins the other arms (the verdict is sticky: nothing stores 1 after the
@@ -1074,6 +1155,7 @@ def run(tier):
         t2_padding(prog, rep)
         t3_escape(prog, rep)
         t3_unicode(prog, rep)
+        t3_tables(prog, rep)
     rep.require_min("T1-endian", 12)
     rep.require_min("T3-sepws", 5)
     rep.require_min("T4-sockaddr", 8)
